@@ -1,48 +1,387 @@
-//! Verification model of `smallvec`: a newtype over `Vec<T>` exposing the API subset vpncloud uses.
-//! Assumption recorded in evidence: inline-vs-heap spill is unobservable through the API.
+//! Verification model of `smallvec` (and, through `ivec::IVec`, of the `Vec`/`HashMap` shims in the harness crate).
+//!
+//! Storage is a fixed-capacity INLINE array + length: heap-backed `Vec` with a symbolic length made CBMC run out of
+//! memory on `ClaimTable::set_claims` with one entry (14 M variables); inline arrays do not. Exceeding the model
+//! capacity is an assertion failure ("model capacity"), never a silent cut. Assumption recorded in evidence:
+//! inline-vs-heap spill of the real smallvec is unobservable through the API; collections stay within model capacity.
+#![allow(clippy::all)]
+use std::mem::MaybeUninit;
 use std::ops::{Deref, DerefMut};
 
+pub mod ivec {
+    use super::*;
+
+    pub struct IVec<T, const CAP: usize> {
+        len: usize,
+        buf: [MaybeUninit<T>; CAP],
+    }
+
+    impl<T, const CAP: usize> IVec<T, CAP> {
+        #[inline]
+        pub fn new() -> Self {
+            IVec { len: 0, buf: unsafe { MaybeUninit::<[MaybeUninit<T>; CAP]>::uninit().assume_init() } }
+        }
+        #[inline]
+        pub fn len(&self) -> usize {
+            self.len
+        }
+        #[inline]
+        pub fn is_empty(&self) -> bool {
+            self.len == 0
+        }
+        #[inline]
+        pub fn capacity(&self) -> usize {
+            CAP
+        }
+        #[inline]
+        pub fn as_slice(&self) -> &[T] {
+            unsafe { std::slice::from_raw_parts(self.buf.as_ptr() as *const T, self.len) }
+        }
+        #[inline]
+        pub fn as_mut_slice(&mut self) -> &mut [T] {
+            unsafe { std::slice::from_raw_parts_mut(self.buf.as_mut_ptr() as *mut T, self.len) }
+        }
+        pub fn push(&mut self, x: T) {
+            assert!(self.len < CAP, "model capacity");
+            self.buf[self.len] = MaybeUninit::new(x);
+            self.len += 1;
+        }
+        pub fn pop(&mut self) -> Option<T> {
+            if self.len == 0 {
+                None
+            } else {
+                self.len -= 1;
+                Some(unsafe { self.buf[self.len].assume_init_read() })
+            }
+        }
+        pub fn swap_remove(&mut self, i: usize) -> T {
+            assert!(i < self.len, "swap_remove index out of bounds");
+            let last = self.len - 1;
+            self.buf.swap(i, last);
+            self.len = last;
+            unsafe { self.buf[last].assume_init_read() }
+        }
+        pub fn remove(&mut self, i: usize) -> T {
+            assert!(i < self.len, "removal index out of bounds");
+            let x = unsafe { self.buf[i].assume_init_read() };
+            let mut j = i;
+            while j + 1 < self.len {
+                self.buf[j] = MaybeUninit::new(unsafe { self.buf[j + 1].assume_init_read() });
+                j += 1;
+            }
+            self.len -= 1;
+            x
+        }
+        pub fn insert(&mut self, i: usize, x: T) {
+            assert!(i <= self.len, "insertion index out of bounds");
+            assert!(self.len < CAP, "model capacity");
+            let mut j = self.len;
+            while j > i {
+                self.buf[j] = MaybeUninit::new(unsafe { self.buf[j - 1].assume_init_read() });
+                j -= 1;
+            }
+            self.buf[i] = MaybeUninit::new(x);
+            self.len += 1;
+        }
+        pub fn retain_mut<F: FnMut(&mut T) -> bool>(&mut self, mut f: F) {
+            let n = self.len;
+            let mut w = 0;
+            let mut r = 0;
+            while r < n {
+                let keep = f(unsafe { &mut *self.buf[r].as_mut_ptr() });
+                if keep {
+                    if w != r {
+                        self.buf[w] = MaybeUninit::new(unsafe { self.buf[r].assume_init_read() });
+                    }
+                    w += 1;
+                } else {
+                    unsafe { std::ptr::drop_in_place(self.buf[r].as_mut_ptr()) };
+                }
+                r += 1;
+            }
+            self.len = w;
+        }
+        #[inline]
+        pub fn retain<F: FnMut(&T) -> bool>(&mut self, mut f: F) {
+            self.retain_mut(|x| f(x))
+        }
+        pub fn truncate(&mut self, n: usize) {
+            while self.len > n {
+                self.len -= 1;
+                unsafe { std::ptr::drop_in_place(self.buf[self.len].as_mut_ptr()) };
+            }
+        }
+        #[inline]
+        pub fn clear(&mut self) {
+            self.truncate(0)
+        }
+        pub fn extend_from_slice(&mut self, s: &[T])
+        where
+            T: Clone,
+        {
+            let mut i = 0;
+            while i < s.len() {
+                self.push(s[i].clone());
+                i += 1;
+            }
+        }
+        pub fn dedup(&mut self)
+        where
+            T: PartialEq,
+        {
+            let mut i = 1;
+            while i < self.len {
+                let same = { self.as_slice()[i] == self.as_slice()[i - 1] };
+                if same {
+                    drop(self.remove(i));
+                } else {
+                    i += 1;
+                }
+            }
+        }
+        pub fn from_elem(x: T, n: usize) -> Self
+        where
+            T: Clone,
+        {
+            assert!(n <= CAP, "model capacity");
+            let mut v = Self::new();
+            let mut i = 0;
+            while i < n {
+                v.buf[i] = MaybeUninit::new(x.clone());
+                i += 1;
+            }
+            v.len = n;
+            v
+        }
+    }
+    impl<T, const CAP: usize> Drop for IVec<T, CAP> {
+        fn drop(&mut self) {
+            if std::mem::needs_drop::<T>() {
+                self.truncate(0)
+            }
+        }
+    }
+    impl<T: Clone, const CAP: usize> Clone for IVec<T, CAP> {
+        fn clone(&self) -> Self {
+            let mut v = Self::new();
+            let mut i = 0;
+            while i < self.len {
+                v.buf[i] = MaybeUninit::new(self.as_slice()[i].clone());
+                i += 1;
+            }
+            v.len = self.len;
+            v
+        }
+    }
+    impl<T, const CAP: usize> Deref for IVec<T, CAP> {
+        type Target = [T];
+        #[inline]
+        fn deref(&self) -> &[T] {
+            self.as_slice()
+        }
+    }
+    impl<T, const CAP: usize> DerefMut for IVec<T, CAP> {
+        #[inline]
+        fn deref_mut(&mut self) -> &mut [T] {
+            self.as_mut_slice()
+        }
+    }
+    pub struct IntoIter<T, const CAP: usize> {
+        v: IVec<T, CAP>,
+        pos: usize,
+    }
+    impl<T, const CAP: usize> Iterator for IntoIter<T, CAP> {
+        type Item = T;
+        fn next(&mut self) -> Option<T> {
+            if self.pos < self.v.len {
+                let x = unsafe { self.v.buf[self.pos].assume_init_read() };
+                self.pos += 1;
+                Some(x)
+            } else {
+                None
+            }
+        }
+    }
+    impl<T, const CAP: usize> Drop for IntoIter<T, CAP> {
+        fn drop(&mut self) {
+            if std::mem::needs_drop::<T>() {
+                while self.pos < self.v.len {
+                    unsafe { std::ptr::drop_in_place(self.v.buf[self.pos].as_mut_ptr()) };
+                    self.pos += 1;
+                }
+            }
+            self.v.len = 0;
+        }
+    }
+    impl<T, const CAP: usize> IntoIterator for IVec<T, CAP> {
+        type Item = T;
+        type IntoIter = IntoIter<T, CAP>;
+        fn into_iter(self) -> IntoIter<T, CAP> {
+            IntoIter { v: self, pos: 0 }
+        }
+    }
+    impl<'a, T, const CAP: usize> IntoIterator for &'a IVec<T, CAP> {
+        type Item = &'a T;
+        type IntoIter = std::slice::Iter<'a, T>;
+        fn into_iter(self) -> Self::IntoIter {
+            self.as_slice().iter()
+        }
+    }
+    impl<'a, T, const CAP: usize> IntoIterator for &'a mut IVec<T, CAP> {
+        type Item = &'a mut T;
+        type IntoIter = std::slice::IterMut<'a, T>;
+        fn into_iter(self) -> Self::IntoIter {
+            self.as_mut_slice().iter_mut()
+        }
+    }
+    impl<T, const CAP: usize> std::iter::FromIterator<T> for IVec<T, CAP> {
+        fn from_iter<I: IntoIterator<Item = T>>(it: I) -> Self {
+            let mut v = Self::new();
+            for x in it {
+                v.push(x);
+            }
+            v
+        }
+    }
+    impl<T, const CAP: usize> Extend<T> for IVec<T, CAP> {
+        fn extend<I: IntoIterator<Item = T>>(&mut self, it: I) {
+            for x in it {
+                self.push(x);
+            }
+        }
+    }
+    impl<T: std::fmt::Debug, const CAP: usize> std::fmt::Debug for IVec<T, CAP> {
+        fn fmt(&self, f: &mut std::fmt::Formatter) -> std::fmt::Result {
+            self.as_slice().fmt(f)
+        }
+    }
+    impl<T: PartialEq, const CAP: usize> PartialEq for IVec<T, CAP> {
+        fn eq(&self, o: &Self) -> bool {
+            self.as_slice() == o.as_slice()
+        }
+    }
+}
+
+/// model capacity per inline size: generous enough for what vpncloud can put in (e.g. 7 + 7 addresses in an AddrList,
+/// 20 peers in a PeerList, 255-byte keys in a rotation message)
 pub unsafe trait Array {
     type Item;
+    type Store;
     fn size() -> usize;
+    fn new_store() -> Self::Store;
 }
-unsafe impl<T, const N: usize> Array for [T; N] {
-    type Item = T;
-    fn size() -> usize {
-        N
+pub trait Store<T> {
+    fn s(&self) -> &[T];
+    fn sm(&mut self) -> &mut [T];
+    fn push(&mut self, x: T);
+    fn pop(&mut self) -> Option<T>;
+    fn swap_remove(&mut self, i: usize) -> T;
+    fn remove(&mut self, i: usize) -> T;
+    fn insert(&mut self, i: usize, x: T);
+    fn retain_mut(&mut self, f: &mut dyn FnMut(&mut T) -> bool);
+    fn truncate(&mut self, n: usize);
+    fn cap(&self) -> usize;
+}
+impl<T, const CAP: usize> Store<T> for ivec::IVec<T, CAP> {
+    #[inline]
+    fn s(&self) -> &[T] {
+        self.as_slice()
+    }
+    #[inline]
+    fn sm(&mut self) -> &mut [T] {
+        self.as_mut_slice()
+    }
+    #[inline]
+    fn push(&mut self, x: T) {
+        ivec::IVec::push(self, x)
+    }
+    #[inline]
+    fn pop(&mut self) -> Option<T> {
+        ivec::IVec::pop(self)
+    }
+    #[inline]
+    fn swap_remove(&mut self, i: usize) -> T {
+        ivec::IVec::swap_remove(self, i)
+    }
+    #[inline]
+    fn remove(&mut self, i: usize) -> T {
+        ivec::IVec::remove(self, i)
+    }
+    #[inline]
+    fn insert(&mut self, i: usize, x: T) {
+        ivec::IVec::insert(self, i, x)
+    }
+    #[inline]
+    fn retain_mut(&mut self, f: &mut dyn FnMut(&mut T) -> bool) {
+        ivec::IVec::retain_mut(self, |x| f(x))
+    }
+    #[inline]
+    fn truncate(&mut self, n: usize) {
+        ivec::IVec::truncate(self, n)
+    }
+    #[inline]
+    fn cap(&self) -> usize {
+        CAP
     }
 }
+macro_rules! arr {
+    ($($n:expr => $cap:expr),*) => {$(
+        unsafe impl<T> Array for [T; $n] {
+            type Item = T;
+            type Store = ivec::IVec<T, $cap>;
+            fn size() -> usize { $n }
+            fn new_store() -> Self::Store { ivec::IVec::new() }
+        }
+    )*};
+}
+arr!(1 => 8, 2 => 8, 3 => 8, 4 => 16, 5 => 16, 8 => 16, 10 => 16, 16 => 24, 20 => 24, 32 => 40, 64 => 64, 96 => 256, 128 => 128, 256 => 256);
 
-pub struct SmallVec<A: Array> {
-    v: Vec<A::Item>,
+pub struct SmallVec<A: Array>
+where
+    A::Store: Store<A::Item>,
+{
+    v: A::Store,
 }
 
-impl<A: Array> SmallVec<A> {
+impl<A: Array> SmallVec<A>
+where
+    A::Store: Store<A::Item>,
+{
     #[inline]
     pub fn new() -> Self {
-        SmallVec { v: Vec::new() }
+        SmallVec { v: A::new_store() }
     }
     #[inline]
-    pub fn with_capacity(n: usize) -> Self {
-        SmallVec { v: Vec::with_capacity(n) }
+    pub fn with_capacity(_n: usize) -> Self {
+        Self::new()
     }
-    #[inline]
     pub fn from_vec(v: Vec<A::Item>) -> Self {
-        SmallVec { v }
+        let mut s = Self::new();
+        for x in v {
+            s.v.push(x);
+        }
+        s
     }
-    #[inline]
     pub fn from_elem(elem: A::Item, n: usize) -> Self
     where
         A::Item: Clone,
     {
-        SmallVec { v: vec![elem; n] }
+        let mut s = Self::new();
+        assert!(n <= s.v.cap(), "model capacity");
+        let mut i = 0;
+        while i < n {
+            s.v.push(elem.clone());
+            i += 1;
+        }
+        s
     }
-    #[inline]
-    pub fn from_slice(s: &[A::Item]) -> Self
+    pub fn from_slice(sl: &[A::Item]) -> Self
     where
         A::Item: Copy,
     {
-        SmallVec { v: s.to_vec() }
+        let mut s = Self::new();
+        s.extend_from_slice(sl);
+        s
     }
     #[inline]
     pub fn push(&mut self, x: A::Item) {
@@ -54,15 +393,15 @@ impl<A: Array> SmallVec<A> {
     }
     #[inline]
     pub fn len(&self) -> usize {
-        self.v.len()
+        self.v.s().len()
     }
     #[inline]
     pub fn is_empty(&self) -> bool {
-        self.v.is_empty()
+        self.v.s().is_empty()
     }
     #[inline]
     pub fn clear(&mut self) {
-        self.v.clear()
+        self.v.truncate(0)
     }
     #[inline]
     pub fn truncate(&mut self, n: usize) {
@@ -82,157 +421,270 @@ impl<A: Array> SmallVec<A> {
     }
     #[inline]
     pub fn retain<F: FnMut(&mut A::Item) -> bool>(&mut self, mut f: F) {
-        self.v.retain_mut(|x| f(x))
+        self.v.retain_mut(&mut f)
     }
-    #[inline]
     pub fn dedup(&mut self)
     where
         A::Item: PartialEq,
     {
-        self.v.dedup()
+        let mut i = 1;
+        while i < self.len() {
+            let same = { self.v.s()[i] == self.v.s()[i - 1] };
+            if same {
+                drop(self.v.remove(i));
+            } else {
+                i += 1;
+            }
+        }
     }
-    #[inline]
     pub fn extend_from_slice(&mut self, s: &[A::Item])
     where
         A::Item: Copy,
     {
-        self.v.extend_from_slice(s)
+        let mut i = 0;
+        while i < s.len() {
+            self.v.push(s[i]);
+            i += 1;
+        }
     }
     #[inline]
     pub fn as_slice(&self) -> &[A::Item] {
-        &self.v
+        self.v.s()
     }
     #[inline]
     pub fn as_mut_slice(&mut self) -> &mut [A::Item] {
-        &mut self.v
+        self.v.sm()
     }
-    #[inline]
-    pub fn into_vec(self) -> Vec<A::Item> {
-        self.v
-    }
-    #[inline]
     pub fn to_vec(&self) -> Vec<A::Item>
     where
         A::Item: Clone,
     {
-        self.v.clone()
+        self.v.s().to_vec()
+    }
+    pub fn into_vec(self) -> Vec<A::Item> {
+        self.into_iter().collect()
     }
     #[inline]
     pub fn capacity(&self) -> usize {
-        self.v.capacity()
+        self.v.cap()
     }
 }
 
-impl<A: Array> Default for SmallVec<A> {
+impl<A: Array> Default for SmallVec<A>
+where
+    A::Store: Store<A::Item>,
+{
     fn default() -> Self {
         Self::new()
     }
 }
-impl<A: Array> Deref for SmallVec<A> {
+impl<A: Array> Deref for SmallVec<A>
+where
+    A::Store: Store<A::Item>,
+{
     type Target = [A::Item];
     #[inline]
     fn deref(&self) -> &[A::Item] {
-        &self.v
+        self.v.s()
     }
 }
-impl<A: Array> DerefMut for SmallVec<A> {
+impl<A: Array> DerefMut for SmallVec<A>
+where
+    A::Store: Store<A::Item>,
+{
     #[inline]
     fn deref_mut(&mut self) -> &mut [A::Item] {
-        &mut self.v
+        self.v.sm()
     }
 }
-impl<A: Array> AsRef<[A::Item]> for SmallVec<A> {
+impl<A: Array> AsRef<[A::Item]> for SmallVec<A>
+where
+    A::Store: Store<A::Item>,
+{
     #[inline]
     fn as_ref(&self) -> &[A::Item] {
-        &self.v
+        self.v.s()
     }
 }
-impl<A: Array> AsMut<[A::Item]> for SmallVec<A> {
+impl<A: Array> AsMut<[A::Item]> for SmallVec<A>
+where
+    A::Store: Store<A::Item>,
+{
     #[inline]
     fn as_mut(&mut self) -> &mut [A::Item] {
-        &mut self.v
+        self.v.sm()
     }
 }
 impl<A: Array> Clone for SmallVec<A>
 where
+    A::Store: Store<A::Item>,
     A::Item: Clone,
 {
     fn clone(&self) -> Self {
-        SmallVec { v: self.v.clone() }
+        let mut s = Self::new();
+        let mut i = 0;
+        while i < self.len() {
+            s.v.push(self.v.s()[i].clone());
+            i += 1;
+        }
+        s
     }
 }
 impl<A: Array> std::fmt::Debug for SmallVec<A>
 where
+    A::Store: Store<A::Item>,
     A::Item: std::fmt::Debug,
 {
     fn fmt(&self, f: &mut std::fmt::Formatter) -> std::fmt::Result {
-        self.v.fmt(f)
+        self.v.s().fmt(f)
     }
 }
 impl<A: Array, B: Array> PartialEq<SmallVec<B>> for SmallVec<A>
 where
+    A::Store: Store<A::Item>,
+    B::Store: Store<B::Item>,
     A::Item: PartialEq<B::Item>,
 {
     fn eq(&self, o: &SmallVec<B>) -> bool {
-        self.v[..] == o.v[..]
+        self.v.s() == o.v.s()
     }
 }
-impl<A: Array> Eq for SmallVec<A> where A::Item: Eq {}
+impl<A: Array> Eq for SmallVec<A>
+where
+    A::Store: Store<A::Item>,
+    A::Item: Eq,
+{
+}
 impl<A: Array> std::hash::Hash for SmallVec<A>
 where
+    A::Store: Store<A::Item>,
     A::Item: std::hash::Hash,
 {
     fn hash<H: std::hash::Hasher>(&self, h: &mut H) {
-        self.v.hash(h)
+        self.v.s().hash(h)
     }
 }
-impl<A: Array> IntoIterator for SmallVec<A> {
+pub struct IntoIter<A: Array>
+where
+    A::Store: Store<A::Item>,
+{
+    v: A::Store,
+    pos: usize,
+}
+impl<A: Array> Iterator for IntoIter<A>
+where
+    A::Store: Store<A::Item>,
+{
     type Item = A::Item;
-    type IntoIter = std::vec::IntoIter<A::Item>;
-    fn into_iter(self) -> Self::IntoIter {
-        self.v.into_iter()
+    fn next(&mut self) -> Option<A::Item> {
+        // front removal by index: elements are read out in order; the store forgets them as `pos` advances
+        if self.pos < self.v.s().len() {
+            let x = unsafe { std::ptr::read(&self.v.s()[self.pos] as *const A::Item) };
+            self.pos += 1;
+            Some(x)
+        } else {
+            None
+        }
     }
 }
-impl<'a, A: Array> IntoIterator for &'a SmallVec<A> {
+impl<A: Array> Drop for IntoIter<A>
+where
+    A::Store: Store<A::Item>,
+{
+    fn drop(&mut self) {
+        // elements before `pos` were moved out; drop the rest, then make the store forget everything
+        let n = self.v.s().len();
+        while self.pos < n {
+            unsafe { std::ptr::drop_in_place(&mut self.v.sm()[self.pos] as *mut A::Item) };
+            self.pos += 1;
+        }
+        // forget without dropping: set length to zero by leaking
+        let store = std::mem::replace(&mut self.v, A::new_store());
+        std::mem::forget(store);
+    }
+}
+impl<A: Array> IntoIterator for SmallVec<A>
+where
+    A::Store: Store<A::Item>,
+{
+    type Item = A::Item;
+    type IntoIter = IntoIter<A>;
+    fn into_iter(self) -> IntoIter<A> {
+        let me = std::mem::ManuallyDrop::new(self);
+        IntoIter { v: unsafe { std::ptr::read(&me.v) }, pos: 0 }
+    }
+}
+impl<'a, A: Array> IntoIterator for &'a SmallVec<A>
+where
+    A::Store: Store<A::Item>,
+{
     type Item = &'a A::Item;
     type IntoIter = std::slice::Iter<'a, A::Item>;
     fn into_iter(self) -> Self::IntoIter {
-        self.v.iter()
+        self.v.s().iter()
     }
 }
-impl<'a, A: Array> IntoIterator for &'a mut SmallVec<A> {
+impl<'a, A: Array> IntoIterator for &'a mut SmallVec<A>
+where
+    A::Store: Store<A::Item>,
+{
     type Item = &'a mut A::Item;
     type IntoIter = std::slice::IterMut<'a, A::Item>;
     fn into_iter(self) -> Self::IntoIter {
-        self.v.iter_mut()
+        self.v.sm().iter_mut()
     }
 }
-impl<A: Array> std::iter::FromIterator<A::Item> for SmallVec<A> {
+impl<A: Array> std::iter::FromIterator<A::Item> for SmallVec<A>
+where
+    A::Store: Store<A::Item>,
+{
     fn from_iter<I: IntoIterator<Item = A::Item>>(it: I) -> Self {
-        SmallVec { v: it.into_iter().collect() }
+        let mut s = Self::new();
+        for x in it {
+            s.v.push(x);
+        }
+        s
     }
 }
-impl<A: Array> Extend<A::Item> for SmallVec<A> {
+impl<A: Array> Extend<A::Item> for SmallVec<A>
+where
+    A::Store: Store<A::Item>,
+{
     fn extend<I: IntoIterator<Item = A::Item>>(&mut self, it: I) {
-        self.v.extend(it)
+        for x in it {
+            self.v.push(x);
+        }
     }
 }
 impl<'a, A: Array> From<&'a [A::Item]> for SmallVec<A>
 where
+    A::Store: Store<A::Item>,
     A::Item: Clone,
 {
-    fn from(s: &'a [A::Item]) -> Self {
-        SmallVec { v: s.to_vec() }
+    fn from(sl: &'a [A::Item]) -> Self {
+        let mut s = Self::new();
+        let mut i = 0;
+        while i < sl.len() {
+            s.v.push(sl[i].clone());
+            i += 1;
+        }
+        s
     }
 }
-impl<A: Array> From<Vec<A::Item>> for SmallVec<A> {
+impl<A: Array> From<Vec<A::Item>> for SmallVec<A>
+where
+    A::Store: Store<A::Item>,
+{
     fn from(v: Vec<A::Item>) -> Self {
-        SmallVec { v }
+        Self::from_vec(v)
     }
 }
-impl<A: Array<Item = u8>> std::io::Write for SmallVec<A> {
+impl<A: Array<Item = u8>> std::io::Write for SmallVec<A>
+where
+    A::Store: Store<u8>,
+{
     fn write(&mut self, b: &[u8]) -> std::io::Result<usize> {
-        self.v.extend_from_slice(b);
+        self.extend_from_slice(b);
         Ok(b.len())
     }
     fn flush(&mut self) -> std::io::Result<()> {
@@ -244,5 +696,9 @@ impl<A: Array<Item = u8>> std::io::Write for SmallVec<A> {
 macro_rules! smallvec {
     () => ( $crate::SmallVec::new() );
     ($elem:expr; $n:expr) => ( $crate::SmallVec::from_elem($elem, $n) );
-    ($($x:expr),+ $(,)?) => ( $crate::SmallVec::from_vec(vec![$($x),+]) );
+    ($($x:expr),+ $(,)?) => ( {
+        let mut v = $crate::SmallVec::new();
+        $( v.push($x); )+
+        v
+    } );
 }
